@@ -71,6 +71,7 @@ void EpollLoop::runLoop(Mode mode)
     keep_running_ = (mode == Loop::Mode::kForever);
     do {
         int fds = epoll_wait(epoll_fd_, events.data(), events.size(), getWaitTime());
+        wait_serial_ = fd_data_serial_;
 
         RECORD_SCOPE();
         beginLoopProcess();
@@ -114,6 +115,7 @@ EpollFdSharedData* EpollLoop::refFdSharedData(int fd)
 
         ::memset(&fd_shared_data->ev, 0, sizeof(fd_shared_data->ev));
         fd_shared_data->fd = fd;
+        fd_shared_data->serial = ++fd_data_serial_;
         //! 内核中只保存fd，而不是指针：分发时该共享数据可能已被前面的回调释放（其内存块甚至已被复用）
         fd_shared_data->ev.data.fd = fd;
 
@@ -128,6 +130,10 @@ EpollFdSharedData* EpollLoop::findFdSharedData(int fd) const
 {
     auto it = fd_data_map_.find(fd);
     if (it == fd_data_map_.end())
+        return nullptr;
+
+    //! 本轮等待返回之后才创建的共享数据（fd号被关闭后重新打开复用），内核报告的就绪状态不属于它
+    if (it->second->serial > wait_serial_)
         return nullptr;
 
     return it->second;
